@@ -1,7 +1,7 @@
 (* SkiplistInstProofs.v — CompareKeys is a strict total order on internal keys; the generic
    skiplist theorems instantiated with it. *)
 From Verif Require Import Bytes BytesProofs Keys Codec Skiplist SkiplistProofs SkiplistInst.
-From Coq Require Import Lia.
+From Coq Require Import Lia Sorted.
 Open Scope nat_scope.
 
 Definition key_pair (k : bytes) : bytes * bytes := (dropn_end 8 k, lastn 8 k).
@@ -94,6 +94,18 @@ Definition c_guard := cguard bytes value_struct ckeys [] zero_vs wf_ikey.
 Definition c_apply := capply bytes value_struct [] zero_vs.
 Definition c_abs := cabs bytes value_struct ckeys [] zero_vs.
 Definition c_linked_at := linked_at bytes value_struct [] zero_vs.
+
+Definition c_reader_fwd := reader_fwd bytes value_struct ckeys [] zero_vs wf_ikey.
+Definition I_reader_gen := ltac:(inst (reader_fwd_sorted bytes value_struct ckeys same_key [] zero_vs wf_ikey)).
+
+(* the reader starts in any reachable state, before the first entry (SeekToFirst) *)
+Lemma I_reader : forall tr s ns s2, c_exec s_new tr s -> c_reader_fwd s head ns s2 ->
+  (forall n, In n ns -> In n (s_level_nodes s2 0)) /\
+  StronglySorted (fun a b => ckeys (s_kof s2 a) (s_kof s2 b) = Lt) ns.
+Proof.
+  intros tr s ns s2 Hex Hr. destruct (I_cexec_inv tr s Hex) as [lv H].
+  destruct (I_reader_gen s head ns s2 Hr lv H (or_introl eq_refl)) as [A [B _]]. split; assumption.
+Qed.
 
 Lemma I_stable_reach : forall tr s a, c_exec s_new tr s -> c_guard a s ->
   (forall y, y < length (nodes _ _ s) ->
